@@ -26,6 +26,10 @@
 (*                                         whose close is being held        *)
 (*   rdone    h                            the handling of that reply ended *)
 (*   removed  e                            SearchRequestRemovedEvent        *)
+(*   ltold    e, i                         the application's i-th listener  *)
+(*                                         of SearchRequestRemovedEvent has *)
+(*                                         handled that event (init.nl =    *)
+(*                                         number of such listeners)        *)
 (*   wlmsg    ival                         WishlistInterval from the server *)
 (*   looperr  exc, tk                      the loop exception handler ran   *)
 (*   tnew / tstart / tresched  e, d        calls on a bare Timer (d = the   *)
@@ -67,7 +71,7 @@ TInit ==
   /\ ticket = [e \in Ents |-> 0]
   /\ armed = [e \in Ents |-> FALSE]
   /\ adl = [e \in Ents |-> 0]
-  /\ hs = <<>> /\ hc = <<>> /\ sc = <<>>
+  /\ hs = <<>> /\ hc = <<>> /\ sc = <<>> /\ owed = {}
   /\ requests = {}
   /\ gen = [mgr |-> 1, cli |-> 1]
   /\ tmo = [e \in Ents |-> 0]
@@ -89,7 +93,9 @@ Regroup(K, h) ==
          [K EXCEPT !.hs[h].n = 1, !.hs[x].n = 0]
     ELSE K
 
-Events == {"create", "remove", "reply", "result", "rin", "rdone", "removed", "wlmsg", "looperr",
+NL == Traces[tid][1].nl
+
+Events == {"create", "remove", "reply", "result", "rin", "rdone", "removed", "ltold", "wlmsg", "looperr",
            "tnew", "tstart", "tresched", "tcancel", "fire", "opexc", "quiet"}
 
 \* what every record does
@@ -130,9 +136,13 @@ Apply(r) ==
         /\ op' = Op("none", 0, 0) /\ out' = <<>>
         /\ ran' = 0 /\ errs' = errs /\ UNCHANGED srvIval
      \/ /\ r.ev = "removed"
-        /\ SetAbs(A_Expire(Abs, r.e))
+        /\ SetAbs(A_Owe(A_Expire(Abs, r.e), r.e, NL))
         /\ op' = Op("none", 0, 0) /\ out' = <<Ev("removed", r.e)>>
         /\ ran' = r.e /\ errs' = errs /\ UNCHANGED srvIval
+     \/ /\ r.ev = "ltold"
+        /\ SetAbs(A_Told(Abs, r.e, r.i))
+        /\ op' = Op("none", 0, 0) /\ out' = <<Ev(ToldEv(r.i), r.e)>>
+        /\ ran' = 0 /\ errs' = errs /\ UNCHANGED srvIval
      \/ /\ r.ev = "wlmsg"
         /\ srvIval' = r.ival
         /\ op' = Op("wlmsg", 0, r.ival) /\ out' = <<>> /\ ran' = 0 /\ errs' = errs
@@ -162,7 +172,8 @@ WellFormed(r) ==
   /\ r.now >= now
   /\ r.now > now => q                              \* the driver only advances the clock when quiet
   /\ r.ev \in {"create", "tnew"} => r.e \in Ents /\ kind[r.e] = "none"
-  /\ r.ev \in {"remove", "removed", "result"} => r.e \in Ents
+  /\ r.ev \in {"remove", "removed", "result", "ltold"} => r.e \in Ents
+  /\ r.ev = "ltold" => r.i \in 1..NL /\ NL <= 2
   /\ r.ev = "remove" => status[r.e] = "live" /\ IsReq(r.e)
   /\ r.ev \in {"tstart", "tresched", "tcancel", "fire"} => r.e \in Ents /\ kind[r.e] = "bare"
   /\ r.ev = "tstart" => ~armed[r.e]
@@ -177,11 +188,13 @@ Judge(r) ==
   ELSE IF ~DistinctTickets' THEN "DistinctTickets"
   ELSE IF ~QuietAfterManualRemovalA THEN "QuietAfterManualRemoval"
   ELSE IF ~RemovedOnceAtTimeoutA THEN "RemovedOnceAtTimeout"
+  ELSE IF ~ToldA THEN "ReportedToEveryListener"
   ELSE IF ~RemoveSucceedsA THEN "RemoveSucceeds"
   ELSE IF ~NoLoopErrorA THEN "NoLoopError"
   ELSE IF ~SupersededNeverFiresA THEN "SupersededNeverFires"
   ELSE IF ~RegistryExact' THEN "RegistryExact"
   ELSE IF ~NoOverdue' THEN "NoOverdue"
+  ELSE IF ~AllTold' THEN "AllTold"
   ELSE "ok"
 
 TStep ==
@@ -217,6 +230,7 @@ TSpec == TInit /\ [][TNext]_tvars
 TResultIffLive == [][ResultIffLiveA]_tvars
 TRemovedOnceAtTimeout == [][RemovedOnceAtTimeoutA]_tvars
 TQuietAfterManualRemoval == [][QuietAfterManualRemovalA]_tvars
+TReportedToEveryListener == [][ToldA]_tvars
 TRemoveSucceeds == [][RemoveSucceedsA]_tvars
 TNoLoopError == [][NoLoopErrorA]_tvars
 TSupersededNeverFires == [][SupersededNeverFiresA]_tvars
